@@ -1599,3 +1599,19 @@ add('C07', 'twin', 'chainmap-test-rewritten', [(S, '''    if (
     only_default = len(maps) == 1 and not maps[0]
     if not maps or only_default:
         return pretty_call_alt(ctx, constructor)''')])
+
+
+# ----------------------------------------------------------------------------- corpora kept as patches
+# behaviour-preserving refactorings written by independent agents (selftest/refactors/R*.diff): every property must stay
+# silent on each of them; seeded property-breaking changes (seeded/<prop>-<k>/patch.diff): the property must fire
+import glob as _glob
+import os as _os
+from selftest.harness import PatchVariant as _PatchVariant
+
+_HERE = _os.path.dirname(_os.path.abspath(__file__))
+ALL_PROPS = tuple('C%02d' % i for i in range(1, 21))
+for _p in sorted(_glob.glob(_os.path.join(_HERE, 'refactors', 'R*.diff'))):
+    VARIANTS.append(_PatchVariant(ALL_PROPS, 'twin', 'refactor-' + _os.path.basename(_p)[:-5], _p))
+for _p in sorted(_glob.glob(_os.path.join(_os.path.dirname(_HERE), 'seeded', 'C[0-9][0-9]-[0-9]*', 'patch.diff'))):
+    _n = _os.path.basename(_os.path.dirname(_p))
+    VARIANTS.append(_PatchVariant(_n.split('-')[0], 'breaker', 'seeded-' + _n, _p))
